@@ -142,6 +142,46 @@ CHECKS = {
              "join) recorded.",
         ref="DESIGN.md section 3 C01",
     ),
+
+    "C02": dict(
+        technique="Hypothesis PBT against a reference model of the unmet-design policy; model-driven logic seam (L1) for bulk exploration, real GHE (L2) and pygfunction (L3) samples",
+        text="Real search classes (Bisection1D/2D/ZD on real candidate domains, RowWise with real field generation) run against "
+             "a generated monotone thermal model with the load swept over 8 decades and pinned to the fits/does-not-fit "
+             "boundaries, height windows, caps and both continue settings; expected outcome (design / ValueError / largest at "
+             "max height / smallest at min height), height window, cap and exception types are compared with a reference "
+             "model of the stated policy. The same through GHEManager with real GHE objects. Sampling.",
+        note="L1 seam: search_routines.GHE replaced by a model-driven fake in the check process; max_boreholes exercised for "
+             "near-square and rectangle only (as documented); exact-zero excess excluded.",
+        ref="DESIGN.md section 3 C02",
+    ),
+    "C05": dict(
+        technique="exhaustive enumeration of list lengths x threshold positions x sign patterns x caps through the real search classes (L1 seam) + Hypothesis PBT for the height root",
+        text="Every candidate-list length 1..64 x every first-feasible position x both signs at min height x every cap x both "
+             "continue settings, every sign pattern up to length 10, and nested lists for Bisection2D / BisectionZD incl. "
+             "'one borehole suffices', judged on the evaluation log (selected feasible, no evaluated feasible candidate with "
+             "less drilling, predecessor evaluated infeasible, first feasible under monotonicity); real GHE sizing and full L2 "
+             "designs: |excess| <= 1e-3 K at a returned height strictly inside the window.",
+        note="Exhaustive for the stated finite spaces in the thorough tier (quick thins out caps for lists longer than 24); "
+             "L1 seam assumption as C02; KF-C05-1 recorded.",
+        ref="DESIGN.md section 3 C05",
+    ),
+    "C12": dict(
+        technique="Hypothesis PBT over design outcomes (stratified over method x outcome class x continue); oracle: arithmetic identities + fresh-object re-simulation of the reported design",
+        text="For completed runs in all four outcome classes: borehole count vs coordinate rows, total drilling, reported "
+             "max/min EFT (JSON and text summary) vs a fresh simulation of the reported field at the reported height (1e-3 K), "
+             "search-log rows vs the excess formula.",
+        note="L2 seam for the bulk, a few L3 runs; fresh simulation follows the tool's documented pipeline.",
+        ref="DESIGN.md section 3 C12",
+    ),
+    "C13": dict(
+        technique="Hypothesis stateful testing (RuleBasedStateMachine) over API call histories; differential oracle = same configuration in a fresh subprocess / fresh object, bit-identical",
+        text="Manager machine: configure (permuted setter order, arbitrary nominal height), find_design (repeated), "
+             "set_design again, foreign run, rebuild; every find_design compared with a fresh-process reference by float.hex. "
+             "GHE machine: simulate(HYBRID/HOURLY), size, set height on one object; every simulate compared with a fresh "
+             "object's first call. Traces are replayable JSON.",
+        note="L2 seam; bit-identity on this machine's BLAS with single-threaded numerics; quick tier does not shrink.",
+        ref="DESIGN.md section 3 C13",
+    ),
 }
 
 NOT_YET = {}
